@@ -101,6 +101,7 @@ func main() {
 	behs := flag.String("behaviours", "", "")
 	outp := flag.String("out", "", "")
 	gated := flag.Bool("gated", false, "replay with every Send parked at a gate: callbacks fire while a batch is being sent")
+	burstOnly := flag.Bool("burstonly", false, "replay only as a burst (callbacks back to back, racing the send loop)")
 	flag.Parse()
 	b, err := os.ReadFile(*behs)
 	if err != nil {
@@ -114,7 +115,7 @@ func main() {
 	bi := 0
 	for _, beh := range all {
 		modes := []bool{false, true}
-		if *gated {
+		if *gated || *burstOnly {
 			modes = []bool{true}
 		}
 		for _, burst := range modes {
